@@ -1796,6 +1796,34 @@ def popen_launch(case, rp):
             if probs:
                 return dict(confirmed=True, detail='; '.join(probs[:3]), input=dict(cancel_pending=pending, exit_code=code),
                             found_by='bounded native launch scenarios (%d tried)' % n)
+    # an error after the process exists (here: the timeout registration raises): the task is
+    # failed by work(), and its placement is released exactly once - now or by the watcher
+    for when in ('timeout',):
+        n += 1
+        p = mk_popen(rp)
+        sbox = tempfile.mkdtemp(prefix='verif_launch_')
+        p._watch_queue = queue.Queue()
+        p._session = AttrDict(rcfg=AttrDict(new_session_per_task=False))
+        def boom(t): raise ValueError('could not convert string to float')
+        p.handle_timeout = boom if when == 'timeout' else (lambda t: None)
+        t = {'uid': 't1', 'task_sandbox_path': sbox, 'launch_path': '/bin/true', 'launcher_name': 'FORK', 'description': {}}
+        p._handle_task = lambda task: p._launch_task(task)
+        saved = mod.sp.Popen
+        mod.sp.Popen = lambda *a, **k: _FakeProc(0)
+        try:
+            p.work([t])
+            watch = []
+            while not p._watch_queue.empty(): watch.append(p._watch_queue.get())
+            if watch: p._check_running(watch)
+        except Exception as e:
+            return dict(confirmed=True, detail='work raised %r' % e, input=dict(error_after_spawn=when))
+        finally:
+            mod.sp.Popen = saved
+            shutil.rmtree(sbox, ignore_errors=True)
+        k = released(p, 't1')
+        if k != 1:
+            return dict(confirmed=True, input=dict(error_after_spawn=when), found_by='bounded native launch scenarios (%d tried)' % n,
+                        detail='the launch of t1 raised after its process existed (%s): its placement was released %d times (expected once)' % (when, k))
     return dict(confirmed=False, detail='%d launch scenarios hold natively' % n)
 
 
@@ -2154,7 +2182,7 @@ def work_cb_dispatch(case, rp):
     import threading as mt
     from radical.pilot.utils.component import BaseComponent
     n = 0
-    for raises in (False, True):
+    for raises in (False, True, 'after-advancing'):
         for states in (['S1'], ['S1', 'S2']):
             n += 1
             c = object.__new__(BaseComponent)
@@ -2170,8 +2198,11 @@ def work_cb_dispatch(case, rp):
                     return list(things)
             seen = []
             def good(ts): seen.append(('ok', [t['uid'] for t in ts]))
-            def bad(ts):
+            def bad(ts, _r=raises):
                 seen.append(('bad', [t['uid'] for t in ts]))
+                if _r == 'after-advancing':
+                    # what most work routines do first: move their bulk to the working state
+                    for t in ts: t['state'] = 'S1_WORKING'
                 raise RuntimeError('worker failed')
             c._inputs = {'in': {'qname': 'q', 'queue': Q(), 'states': list(states)}}
             c._workers = {s_: (bad if (raises and s_ == 'S1') else good) for s_ in states}
@@ -2185,7 +2216,7 @@ def work_cb_dispatch(case, rp):
             probs = []
             if r is not True: probs.append('work_cb returned %r (the callback would be unregistered)' % r)
             if raises:
-                s1 = [t for t in things if t['state'] == 'S1']
+                s1 = [t for t in things if t['state'] in ('S1', 'S1_WORKING')]
                 if [a for a in adv if a[1] == 'FAILED'] != [([t['uid'] for t in s1], 'FAILED', True, False)]:
                     probs.append('the failed bulk was advanced as %s (expected once, FAILED, published, not pushed)' % adv)
                 for t in s1:
@@ -2200,6 +2231,33 @@ def work_cb_dispatch(case, rp):
                 return dict(confirmed=True, detail='; '.join(probs[:3]), input=dict(states=states, worker_raises=raises),
                             found_by='directed native scenario (%d tried)' % n)
     return dict(confirmed=False, detail='%d work_cb scenarios hold natively' % n)
+
+
+@builder('task_manager.py:TaskManager._state_sub_cb')
+def tmgr_state_sub_cb(case, rp):
+    """the real _state_sub_cb with _update_tasks replaced by a recorder: every task notification
+    of an update message is handed on once, in the order delivered"""
+    import itertools
+    from radical.pilot.task_manager import TaskManager
+    n = 0
+    pool = [('task', 't1', 'AGENT_EXECUTING'), ('task', 't1', 'DONE'), ('task', 't1', 'AGENT_STAGING_OUTPUT'), ('task', 't2', 'FAILED'),
+            ('pilot', 'p1', 'PMGR_ACTIVE'), ('task', 't2', 'DONE')]
+    for k in (1, 2, 3):
+        for combo in itertools.permutations(pool, k):
+            n += 1
+            m = object.__new__(TaskManager)
+            m._log, m._prof = Stub(), Stub()
+            m._terminate = _Event()
+            got = []
+            m._update_tasks = lambda ts: got.extend((t['uid'], t['state']) for t in ts)
+            things = [{'type': ty, 'uid': u, 'state': st_} for ty, u, st_ in combo]
+            r = m._state_sub_cb('state_pubsub', {'cmd': 'update', 'arg': things})
+            want = [(u, st_) for ty, u, st_ in combo if ty == 'task']
+            if got != want or r is not True:
+                return dict(confirmed=True, detail='message with notifications %s: applied %s, expected %s' % (
+                                [(u, st_) for ty, u, st_ in combo], got, want),
+                            input=dict(message=things), found_by='bounded native enumeration (%d messages)' % n)
+    return dict(confirmed=False, detail='%d update messages are handed on completely and in order' % n)
 
 
 @builder('task_manager.py:TaskManager._task_cb')
